@@ -2,7 +2,7 @@
    destruction with live callbacks included, and what the invariants give for it. *)
 From OlaBase Require Import Bytes.
 From Coq Require Import Sorted Permutation.
-From C12 Require Import Gen Model ProofsT ProofsF ProofsA ProofsB ProofsC ProofsD ProofsR ProofsE ProofsP ProofsV.
+From C12 Require Import Gen Model ProofsT ProofsF ProofsA ProofsB ProofsC ProofsD ProofsR ProofsE ProofsE2 ProofsP ProofsV.
 Local Open Scope N_scope.
 
 Inductive reachable (max : N) (discov : bool) (ms : list mitem) (ds : list bool)
@@ -265,4 +265,33 @@ Proof.
   split; [apply sorted_lt_true; exact Hso|].
   split; [apply bad_zero; [exact (reach_own _ _ _ _ _ _ Hr)|exact Hk]|].
   split; [apply lost_zero; exact Hcnt|]. auto.
+Qed.
+
+(* ---- the discovery verdict ---- *)
+Lemma reach_Q max discov ms ds s ag : reachable max discov ms ds s ag -> QI s ag.
+Proof.
+  induction 1.
+  - apply QI_init.
+  - apply QI_trace; auto.
+  - apply QI_destroy; auto.
+  - eapply step_Q; eauto; [eapply reach_A2|eapply reach_E]; eauto.
+Qed.
+Lemma reach_dv max discov ms ds s : reachable max discov ms ds s [] -> dv_of s = O.
+Proof. intros Hr. apply dv_zero; [eapply reach_E|eapply reach_Q]; eauto. Qed.
+
+(* ---- destruction ---- *)
+Lemma reach_dying_step max discov ms ds s f ag s' ag' :
+  reachable max discov ms ds s (f :: ag) -> h_destroying s = true -> step s f ag = (s', ag') ->
+  dying_step s s'.
+Proof.
+  intros Hr Hd H. destruct (reach_A2 _ _ _ _ _ _ Hr) as [[Hnd _]|(_ & (Hp & _) & Hdag & _)]; [congruence|].
+  inversion Hdag; subst. eapply step_dying; eauto.
+Qed.
+Lemma destroy_after_prefix max discov ms ds h1 :
+  exists f, run_history max discov ms ds h1 = Some f /\ final_ok f /\ h_destroying f = true.
+Proof.
+  destruct (run_history max discov ms ds h1) as [f|] eqn:E.
+  - exists f. split; [reflexivity|]. split; [eapply history_final; eauto|].
+    destruct (history_reach _ _ _ _ _ _ E); auto.
+  - exfalso. eapply run_history_total; eauto.
 Qed.
